@@ -34,8 +34,46 @@ def run(sess: Session):
                           decided=bool(fk) and fk[0].on_delete == 'SET NULL' and fk[0].ref_table == 'lexicons',
                           detail='lexicon_dependencies.provider_rowid REFERENCES lexicons ON DELETE SET NULL',
                           functions=('wn/schema.sql',)))
+    for ob in placeholder_identity_obligations():
+        sess.check(ob)
     try:
         for ob in coreflows.wordnet_init_obligations(PROP):
             sess.check(ob)
     except Unsupported as exc:
         sess.unsupported('wn._core.Wordnet.__init__:flow', str(exc))
+
+
+def placeholder_identity_obligations() -> list:
+    """Borrowed relation targets without a counterpart in the lexicon are placeholder synsets that all carry the
+    sentinel rowid (so they compare equal) and differ in their ILI: what keeps two of them apart in the dict/set
+    based de-duplication of relations()/get_related()/paths is that Synset.__hash__ depends on the ILI."""
+    import z3
+    import wn._core as core
+    from vc.pyvc.interp import explore, source_span
+    from vc.pyvc.values import SObj, mk, SV
+    from vc.pyvc.builtins_sym import HashVal
+    from vc.pyvc import famcmp
+    cm = dict(prop=PROP, functions=('wn._core.Synset.__hash__',), source=source_span(core.Synset.__hash__),
+              assumptions_used=())
+    a = SObj(core.Synset, {'_id': mk('int', 'rowid'), '_lexid': mk('int', 'lexid'), '_ili': mk('str', 'ili_a', True),
+                           'id': mk('str', 'name')}, name='a')
+    b = SObj(core.Synset, {'_id': mk('int', 'rowid'), '_lexid': mk('int', 'lexid'), '_ili': mk('str', 'ili_b', True),
+                           'id': mk('str', 'name')}, name='b')
+    obs = []
+    outs_a = explore(lambda it: it.call_function(core.Synset.__hash__, [a], {}), packages=('wn',))
+    outs_b = explore(lambda it: it.call_function(core.Synset.__hash__, [b], {}), packages=('wn',))
+    ok = len(outs_a) == 1 and len(outs_b) == 1 and all(o.kind == 'return' and isinstance(o.value, HashVal)
+                                                         for o in outs_a + outs_b)
+    if not ok:
+        return [Obligation('wn._core.Synset.__hash__:shape', kind='post', decided=False,
+                           detail='__hash__ is not hash(<tuple of attributes>)', **cm)]
+    ca, cb = outs_a[0].value.comps, outs_b[0].value.comps
+    same = famcmp.value_eq(tuple(ca), tuple(cb))
+    ia, ib = a.attrs['_ili'], b.attrs['_ili']
+    differ = z3.Not(z3.Or(z3.And(ia.none, ib.none), z3.And(z3.Not(ia.none), z3.Not(ib.none), ia.z == ib.z)))
+    from vc.pyvc.values import z_bool
+    obs.append(Obligation('wn._core.Synset.__hash__:distinguishes-ili', kind='post', assumptions=[differ],
+                          goal=z3.Not(z_bool(same)),
+                          detail='two synsets with the same rowid and lexicon but different ILIs (inferred placeholders) '
+                                 'must hash over different values, otherwise sets and dicts merge them', **cm))
+    return obs
